@@ -374,7 +374,7 @@ void WebSocket::send(const Var& v)
 
 void WebSocket::send(const byte* p, int length, FrameType type)
 {
-	if (length <= 0 || _closed)
+	if (length < 0 || _closed || (length == 0 && type < FRAME_CLOSE)) // only control frames can be empty (the pong that answers an empty ping)
 		return;
 	byte opcode = (type == FRAME_TEXT) ? 1 : (type == FRAME_BINARY) ? 2 : (type == FRAME_PONG) ? 10 : (type == FRAME_PING) ? 9 : 8;
 	byte b0 = 0x80 | opcode;
